@@ -515,29 +515,37 @@ class C02Award(Monitor):
         self.won = None
 
     def _up_by_history(self, s: State, i):
-        """the cards of player `i` that count at the showdown, from the operations alone: the cards he holds that
-        he tabled (named in, or covered by, one of his shows) or that were dealt to him face up - not the
-        engine's own facing flags"""
+        """the cards of player `i` that count at the showdown, from the operations alone: every card he holds that
+        he tabled (named in, or covered by, one of his shows) counts; a card that was neither tabled nor dealt
+        face up does not; a card dealt face up that he left out of a partial show may count or not (the engine
+        turns it face down) - the engine's own facing flags are only consulted for that last kind"""
         from collections import Counter
-        open_ = Counter()
+        tabled, dealt_up = Counter(), Counter()
         for o in s.operations:
             n = type(o).__name__
             if getattr(o, 'player_index', None) != i:
                 continue
             if n == 'HoleDealing':
-                open_.update(c for c, u in zip(o.cards, o.statuses) if u and c)
+                dealt_up.update(c for c, u in zip(o.cards, o.statuses) if u and c)
             elif n == 'HoleCardsShowingOrMucking' and o.hole_cards:
                 for c, k in Counter(c for c in o.hole_cards if c).items():
-                    open_[c] = max(open_[c], k)
+                    tabled[c] = max(tabled[c], k)
+        held = Counter(c for c in s.hole_cards[i] if c)
+        must = tabled & held
+        may = (tabled | dealt_up) & held
+        eng = Counter(s.get_up_cards(i))
+        ok = not (must - eng) and not (eng - may)
+        if not ok and not getattr(self, '_up_reported', False):
+            self._up_reported = True
+            self.report('shown_cards', 'shown_cards', f'player {i} holds {list(s.hole_cards[i])}; tabled {sorted(map(repr, must.elements()))}, '
+                        f'dealt face up {sorted(map(repr, (dealt_up & held).elements()))}; the engine counts '
+                        f'{list(s.get_up_cards(i))} at the showdown')
+        src = eng if ok else may
         up = []
         for c in s.hole_cards[i]:
-            if c and open_[c] > 0:
-                open_[c] -= 1
+            if c and src[c] > 0:
+                src[c] -= 1
                 up.append(c)
-        if sorted(map(repr, up)) != sorted(map(repr, s.get_up_cards(i))) and not getattr(self, '_up_reported', False):
-            self._up_reported = True
-            self.report('shown_cards', 'shown_cards', f'player {i} holds {list(s.hole_cards[i])}; tabled or dealt face up: {up}; '
-                        f'the engine counts {list(s.get_up_cards(i))} at the showdown')
         return up
 
     def _keys(self, s: State, live):
